@@ -47,3 +47,23 @@ PROPS["C19"] = {
     "outside_claim": ["attribute lists inside resource units (empty here)", "placement requirements (C08)"],
     "assumptions": ["ValidateBasic runs before the handler (SDK ante handler)", "a panic during validation rejects the transaction"],
 }
+
+C12_Q = ["Harness_C12_status_1x1", "Harness_C12_status_1x2", "Harness_C12_status_2x2",
+         "Harness_C12_alloc_n1p0", "Harness_C12_alloc_n1p1", "Harness_C12_alloc_n2p0", "Harness_C12_alloc_n2p1"]
+PROPS["C12"] = {
+    "jobs": [{
+        "pkg": "provider/cluster",
+        "files": ["harness/C12/inventory.go"],
+        "quick": C12_Q,
+        "thorough": C12_Q + ["Harness_C12_status_1x3", "Harness_C12_alloc_n2p1r2", "Harness_C12_alloc_n2p2"],
+        "opts": {"timeout": 20000},
+        "reach": {h: ["granted", "refused"] for h in ["Harness_C12_alloc_n1p0", "Harness_C12_alloc_n2p1"]},
+    }],
+    "bounds": {
+        "quick": "getStatus: <=2 reservations x <=2 resource records, symbolic cpu/memory/storage in [0,2^62), replica count 1..2, 0..2 endpoints, symbolic allocated flag; reservationAllocateable: <=2 nodes with symbolic available capacity, <=1 pending reservation plus the new one, <=2 records, replica count 1..2, symbolic free ports; the existential placement oracle is expanded over all assignments of the bounded instance",
+        "thorough": "adds 3 records per reservation, 2 pending reservations",
+    },
+    "stubs": COMMON_STUBS + ["prometheus metrics -> not reached (functions are called directly, not through the event loop)"],
+    "outside_claim": ["the select loop of inventoryService.run (event interleavings) and the commit-level float kernel are separate harnesses", "metrics", "Kubernetes inventory fetch"],
+    "assumptions": ["node inventories carry non-nil cpu/memory/storage"],
+}
